@@ -225,4 +225,51 @@ def dec2ddm(dec):""", note='sign flag dropped in dec2dms: wrong for -1 < x < 0')
          note='+180 dropped from the reverse azimuth'),
     dict(id='vi-semimin-grs80', props=['C05'], file='geodepy/geodesy.py', old="    ell_dist = ellipsoid.semimin*a * (sigma - delta_sigma)",
          new="    ell_dist = grs80.semimin*a * (sigma - delta_sigma)", note='distance scaled with the default ellipsoid'),
+    # ---- C20: HTTP API ---------------------------------------------------------------------------------------------
+    dict(id='api-latlon-swap', props=['C20'], file='api/app.py',
+         old="""    lat2_dd, lon2_dd, azimuth2to1_dd = vincdir(lat1_dd, lon1_dd,
+                                               azimuth1to2_dd, ell_dist)""",
+         new="""    lat2_dd, lon2_dd, azimuth2to1_dd = vincdir(lon1_dd, lat1_dd,
+                                               azimuth1to2_dd, ell_dist)""", note='lat/lon swapped in /vincdir'),
+    dict(id='api-to-ignored', props=['C20'], file='api/app.py',
+         old="    angle = dd_to_angle_type[to_angle_type]", new="    angle = dd_to_angle_type[from_angle_type]",
+         note='/vincinv output type taken from from_angle_type'),
+    dict(id='api-dd-converts', props=['C20'], file='api/app.py',
+         old="""dd_to_angle_type = {
+    'dd': lambda x: x,""", new="""dd_to_angle_type = {
+    'dd': lambda x: round(x, 8),""", note='dd output branch alters the value'),
+    dict(id='api-pt-swap', props=['C20'], file='api/app.py',
+         old="""    ell_dist, azimuth1to2_dd, azimuth2to1_dd = vincinv(lat1_dd, lon1_dd,
+                                                       lat2_dd, lon2_dd)""",
+         new="""    ell_dist, azimuth2to1_dd, azimuth1to2_dd = vincinv(lat2_dd, lon2_dd,
+                                                       lat1_dd, lon1_dd)""",
+         note='/vincinv computes the swapped problem and exchanges the azimuths (differs only in the last digits)'),
+    # ---- C14: grid geodesics ----------------------------------------------------------------------------------------
+    dict(id='g14-k1', props=['C14'], file='geodepy/geodesy.py', old="          (6 * r_sq_m))", new="          (5 * r_sq_m))",
+         note='6 -> 5 in k1 of the line scale factor'),
+    dict(id='g14-conv-sign', props=['C14'], file='geodepy/geodesy.py', old="    grid2to1 = az2to1 + pt2[3]",
+         new="    grid2to1 = az2to1 - pt2[3]", note='sign of the convergence at P2 in vincinv_utm'),
+    dict(id='g14-hemi-lsf', props=['C14'], file='geodepy/geodesy.py',
+         old="""    lsf = line_sf(zone1, east1, north1,
+                  zone2, east2, north2, hemisphere, ellipsoid)
+    grid_dist = ell_dist * lsf""",
+         new="""    lsf = line_sf(zone1, east1, north1,
+                  zone2, east2, north2, ellipsoid=ellipsoid)
+    grid_dist = ell_dist * lsf""", note='hemisphere not forwarded to line_sf in vincinv_utm (northern lines)'),
+    dict(id='g14-zone1-reproj', props=['C14'], file='geodepy/geodesy.py',
+         old="        stn2_zone1 = geo2grid(stn2_geo[0], stn2_geo[1], zone1, ellipsoid)",
+         new="        stn2_zone1 = geo2grid(stn2_geo[0], stn2_geo[1], zone2, ellipsoid)",
+         note='cross-zone re-projection of station 2 stays in zone 2'),
+    dict(id='g14-direct-hemi', props=['C14'], file='geodepy/geodesy.py',
+         old="""    lat2, lon2, psf2, gridconv2 = grid2geo(zone2, east2, north2,
+                                           hemisphere, ellipsoid)
+    grid2to1 = az2to1 + gridconv2""",
+         new="""    lat2, lon2, psf2, gridconv2 = grid2geo(zone2, east2, north2,
+                                           ellipsoid=ellipsoid)
+    grid2to1 = az2to1 + gridconv2""", note='vincdir_utm: final convergence computed for the southern hemisphere always'),
+    dict(id='g14-direct-ell', props=['C14'], file='geodepy/geodesy.py',
+         old="""        lat2, lon2, az2to1 = vincdir(lat1, lon1, az1to2,
+                                     grid_dist / lsf, ellipsoid)""",
+         new="""        lat2, lon2, az2to1 = vincdir(lat1, lon1, az1to2,
+                                     grid_dist / lsf)""", note='vincdir_utm: geodesic on the default ellipsoid'),
 ]
